@@ -1162,9 +1162,12 @@ def r6_property_factory(run):
             ok = bool(ds) and k.id not in params and all(
                 d[0] == 'assign' and is_lower_call(d[1]) and isinstance(d[1].func.value, ast.Name) and d[1].func.value.id == name_p for d in ds)
             why = '; '.join(short(d[1], 40) for d in ds if d[0] == 'assign')
-        run.check(ok and len(keys) == 1, 'header property accessor %s uses the one normalised key `%s.lower()`' % (s.func.name, name_p),
-                  s.func, s.node, witness=[why],
-                  runtime_witness='getter, setter and deleter of a header property address different dict keys')
+        # one obligation per cell of transform in {None, callable} in which this accessor variant is the one installed (two
+        # variants selected by `transform is None` and one variant serving both cells are the same set of obligations)
+        for _cell in sorted(_accessor_cells(p, fac, s.func, transform_p)):
+            run.check(ok and len(keys) == 1, 'header property accessor %s uses the one normalised key `%s.lower()`' % (s.func.name, name_p),
+                      s.func, s.node, witness=[why],
+                      runtime_witness='getter, setter and deleter of a header property address different dict keys')
     # property(fget, fset, fdel, doc)
     rets = [n for n in walk_no_nested(fac.node) if isinstance(n, ast.Return) and n.value is not None]
     r = single(rets, 'return statement', fac.qual)
@@ -1190,8 +1193,9 @@ def r6_property_factory(run):
             continue
         for g in by_role[role]:
             gs = [s for s in sites if s.func is g]
-            run.check(bool(gs) and {s.kind for s in gs} <= kinds, 'property(%s=%s): the accessor performs only %s on the header dict' % (
-                role, g.name, '/'.join(sorted(kinds))), g, call, where=g.loc())
+            for _cell in sorted(_accessor_cells(p, fac, g, transform_p)):
+                run.check(bool(gs) and {s.kind for s in gs} <= kinds, 'property(%s=%s): the accessor performs only %s on the header dict' % (
+                    role, g.name, '/'.join(sorted(kinds))), g, call, where=g.loc())
     # setters: None deletes, anything else stores transform(value) / str(value)
     for g in by_role.get('fset', []):
         cfg = cfg_of(g, p)
@@ -1229,14 +1233,22 @@ def r6_property_factory(run):
             for e in none_edges:
                 if flow.find_path(cfg, [e[1]], [cfg.exit], avoid_nodes=dn, edge_filter=flow.no_exc) is not None:
                     ok_del = False
-        run.check(ok_del, 'setting a header property to None deletes the header (and only None does)', g,
-                  'value is None -> delete', where=g.loc(),
-                  runtime_witness='resp.etag = None leaves the header / stores the string "None"')
+        g_cells = _accessor_cells(p, fac, g, transform_p)
+        for _cell in sorted(g_cells):
+            run.check(ok_del, 'setting a header property to None deletes the header (and only None does)', g,
+                      'value is None -> delete', where=g.loc(),
+                      runtime_witness='resp.etag = None leaves the header / stores the string "None"')
         ok_store = bool(stores) and bool(some_edges) and all(
             any(flow.dominated_by_edge(cfg, rd.cfg_node(s.node), e) for e in some_edges) for s in stores)
-        run.check(ok_store, 'a non-None value is stored (never on the None branch)', g, 'value is not None -> store', where=g.loc(),
-                  runtime_witness='resp.etag = "x" is dropped, or None is stored')
-        # stored value: transform(value) when a transform is configured, else str(value)
+        for _cell in sorted(g_cells):
+            run.check(ok_store, 'a non-None value is stored (never on the None branch)', g, 'value is not None -> store', where=g.loc(),
+                      runtime_witness='resp.etag = "x" is dropped, or None is stored')
+        # stored value: transform(value) when a transform is configured, else str(value).  Decided per cell of the finite
+        # domain transform in {None, a callable}: the cells in which THIS setter variant is the one installed (the branch
+        # tests on `transform` that control its definition), and in each of them the callee of the stored value - `str`,
+        # the transform parameter, or a closure variable of the factory bound from them (conditional expression /
+        # `transform or str` / one binding per branch), evaluated in that cell.
+        fcfg = fac_cfg(p, fac)
         for s in stores:
             par = None
             for n in walk_no_nested(g.node):
@@ -1245,24 +1257,126 @@ def r6_property_factory(run):
             if par is None:
                 raise UnknownIdiom('%s: store shape' % g.qual)
             v = par.value
-            shape = None
-            if isinstance(v, ast.Call) and isinstance(v.func, ast.Name) and len(v.args) == 1 and isinstance(v.args[0], ast.Name) and v.args[0].id == vparam:
-                shape = v.func.id
-            ctl = controlling_edges(fac_cfg(p, fac), _def_node(p, fac, g)) if True else []
-            tnone = None
-            for e in ctl:
-                r_ = implied(fac_cfg(p, fac).node(e[0]).ast, e[2] == 'T', lambda x: isinstance(x, ast.Compare) and len(x.ops) == 1
-                             and isinstance(x.left, ast.Name) and x.left.id == transform_p and isinstance(x.ops[0], ast.Is)
-                             and isinstance(x.comparators[0], ast.Constant) and x.comparators[0].value is None)
-                if r_ is not None:
-                    tnone = r_
-            if tnone is None:
-                raise UnknownIdiom('%s: setter variant is not selected by `%s is None`' % (g.qual, transform_p))
-            want = 'str' if tnone else transform_p
-            run.check(shape == want, 'the setter stores %s(value) %s' % (want, 'when no transform is configured' if tnone else
-                                                                         '(the configured transform is applied)'), g, par,
-                      runtime_witness='resp.location = x stores x without the configured transform' if not tnone else
-                      'resp.content_length = 5 stores a non-str')
+            callee = None
+            fixed = None
+            if isinstance(v, ast.Call) and isinstance(v.func, ast.Name) and len(v.args) == 1 and not v.keywords \
+                    and isinstance(v.args[0], ast.Name) and v.args[0].id == vparam:
+                callee = v.func
+                if callee.id in local_names(g):
+                    raise UnknownIdiom('%s: the stored value is produced by the local %s' % (g.qual, callee.id))
+            elif isinstance(v, ast.Name) and v.id == vparam:
+                fixed = 'the value itself, not converted'
+            elif isinstance(v, ast.JoinedStr) and len(v.values) == 1 and isinstance(v.values[0], ast.FormattedValue) and v.values[0].format_spec is None \
+                    and v.values[0].conversion in (-1, 115) and isinstance(v.values[0].value, ast.Name) and v.values[0].value.id == vparam:
+                fixed = 'str'       # f'{value}' / f'{value!s}' is str(value) (format(value, '') is str(value) unless __format__ is overridden)
+                if v.values[0].conversion == -1:
+                    raise UnknownIdiom('%s: %s calls format(value, ""), which is str(value) only for types that do not override __format__'
+                                       % (g.qual, short(v)))
+            else:
+                raise UnknownIdiom('%s: the stored value %s is neither <callable>(%s) nor %s itself' % (g.qual, short(v, 60), vparam, vparam))
+            for tnone in sorted(g_cells, reverse=True):
+                want = 'str' if tnone else 'transform'
+                shape = fixed if fixed is not None else _callee_in_cell(p, fac, fcfg, fdefs, callee, transform_p, tnone)
+                if shape is None:
+                    raise UnknownIdiom('%s: what %s denotes when `%s is None` is %s is not understood' % (g.qual, callee.id, transform_p, tnone))
+                run.check(shape == want, 'the setter stores %s(value) %s' % ('str' if tnone else transform_p,
+                                                                             'when no transform is configured' if tnone else
+                                                                             '(the configured transform is applied)'), g, par,
+                          witness=['%s %s: the value is produced by %s' % (transform_p, 'is None' if tnone else 'is a callable', shape)],
+                          runtime_witness='resp.location = x stores x without the configured transform' if not tnone else
+                          'resp.content_length = 5 stores a non-str')
+
+
+def _accessor_cells(p, fac: Func, g: Func, transform_p) -> Set[bool]:
+    """cells of {`transform is None`: True, False} in which the nested accessor `g` is the one defined"""
+    cells = _transform_cells(fac_cfg(p, fac), _def_node(p, fac, g), transform_p)
+    if not cells:
+        raise UnknownIdiom('%s: the accessor variant is installed for no value of `%s`' % (g.qual, transform_p))
+    return cells
+
+
+def _transform_truth(e, transform_p) -> Optional[bool]:
+    """polarity of an atom about the transform parameter: True = 'it is None', False = 'it is not None'"""
+    if isinstance(e, ast.Compare) and len(e.ops) == 1 and isinstance(e.left, ast.Name) and e.left.id == transform_p \
+            and isinstance(e.comparators[0], ast.Constant) and e.comparators[0].value is None:
+        if isinstance(e.ops[0], (ast.Is, ast.Eq)):
+            return True
+        if isinstance(e.ops[0], (ast.IsNot, ast.NotEq)):
+            return False
+    if isinstance(e, ast.Name) and e.id == transform_p:
+        return False        # truth test: None is false; a transform is a function / functools.partial (always true)
+    if isinstance(e, ast.Call) and isinstance(e.func, ast.Name) and e.func.id == 'callable' and len(e.args) == 1 \
+            and isinstance(e.args[0], ast.Name) and e.args[0].id == transform_p:
+        return False
+    return None
+
+
+def _transform_cells(cfg, nid: int, transform_p) -> Set[bool]:
+    """cells of {transform is None: True, False} in which cfg node `nid` of the factory can execute"""
+    cells = {True, False}
+    for e in controlling_edges(cfg, nid):
+        test = cfg.node(e[0]).ast
+        for pol in (True, False):
+            r_ = implied(test, e[2] == 'T', lambda x, pol=pol: _transform_truth(x, transform_p) is pol)
+            if r_ is not None:
+                is_none = r_ if pol else not r_
+                cells &= {is_none}
+    return cells
+
+
+def _callee_in_cell(p, fac: Func, fcfg, fdefs: Defs, e, transform_p, tnone: bool, depth=0) -> Optional[str]:
+    """what the expression `e` of the factory scope denotes when `transform is None` == tnone:
+    'str' | 'transform' | 'None' | None (something else)"""
+    if depth > 4:
+        raise UnknownIdiom('%s: chain of aliases of the value coercion is too deep' % fac.qual)
+    if isinstance(e, ast.Constant) and e.value is None:
+        return 'None'
+    if isinstance(e, ast.IfExp) or (isinstance(e, ast.BoolOp) and len(e.values) == 2):
+        def truth(t) -> Optional[bool]:
+            neg = False
+            while isinstance(t, ast.UnaryOp) and isinstance(t.op, ast.Not):
+                t, neg = t.operand, not neg
+            r_ = _transform_truth(t, transform_p)
+            if r_ is None:
+                return None
+            return (r_ == tnone) != neg
+        if isinstance(e, ast.IfExp):
+            tv = truth(e.test)
+            if tv is None:
+                raise UnknownIdiom('%s: the condition of `%s` is not a test on `%s`' % (fac.qual, short(e, 60), transform_p))
+            return _callee_in_cell(p, fac, fcfg, fdefs, e.body if tv else e.orelse, transform_p, tnone, depth + 1)
+        first = _callee_in_cell(p, fac, fcfg, fdefs, e.values[0], transform_p, tnone, depth + 1)
+        if first is None:
+            raise UnknownIdiom('%s: `%s`' % (fac.qual, short(e, 60)))
+        first_true = first != 'None'
+        take_first = first_true if isinstance(e.op, ast.Or) else not first_true
+        return first if take_first else _callee_in_cell(p, fac, fcfg, fdefs, e.values[1], transform_p, tnone, depth + 1)
+    if not isinstance(e, ast.Name):
+        return None
+    if e.id == transform_p:
+        if fdefs.defs.get(transform_p):
+            raise UnknownIdiom('%s rebinds its `%s` parameter' % (fac.qual, transform_p))
+        return 'None' if tnone else 'transform'
+    if e.id in fdefs.params:
+        return None
+    ds = fdefs.defs.get(e.id)
+    if not ds:
+        if e.id in fac.nested:
+            return None
+        return 'str' if p.resolve_expr(fac.module, e, fac) == 'builtins.str' else None
+    vals = set()
+    for d in ds:
+        if d[0] != 'assign':
+            raise UnknownIdiom('%s: %s is bound by %s' % (fac.qual, e.id, d[0]))
+        stmt = next((n for n in walk_no_nested(fac.node) if isinstance(n, (ast.Assign, ast.AnnAssign)) and n.value is d[1]), None)
+        ids = fcfg.nodes_for(stmt) if stmt is not None else []
+        if not ids:
+            raise UnknownIdiom('%s: binding of %s is not a statement of the factory' % (fac.qual, e.id))
+        if tnone in _transform_cells(fcfg, ids[0], transform_p):
+            vals.add(_callee_in_cell(p, fac, fcfg, fdefs, d[1], transform_p, tnone, depth + 1))
+    if len(vals) != 1:
+        raise UnknownIdiom('%s: %s has %d possible bindings when `%s is None` is %s' % (fac.qual, e.id, len(vals), transform_p, tnone))
+    return vals.pop()
 
 
 def fac_cfg(p, fac):
@@ -1849,7 +1963,7 @@ def check(run):
 
     run.rule('R13', _c09.localtime_sweep, 'cookie expiry and date headers are formatted as UTC, never through the process-local zone (shared with C09 R4)', floor=1)
     run.rule('R5', r5_uri_helpers, 'URI-bearing helpers are percent-encoded', floor=9)
-    run.rule('R6', r6_property_factory, 'header property factory: one key, None deletes, transform applied', floor=16)
+    run.rule('R6', r6_property_factory, 'header property factory: one key, None deletes, transform applied', floor=20)
     run.rule('R14', r14_jar_only_grows, 'the cookie jar only grows: no entry removed, jar rebound only from None to a fresh jar', floor=3)
     run.rule('R12', r12_append_presence, 'presence is decided by the key, not by the truth of the stored value: the append/join decision and every '
              'reader of the header dict (get_header, delete_header, the property getter)', floor=4)
